@@ -1,0 +1,5 @@
+//go:build !verif
+
+package compact
+
+func verifPaused() bool { return false }
